@@ -64,6 +64,11 @@ CHECKS["C09"] = ("model_checking",
     "Verdicts are model-based; 'never panics' is exploration over the enumerated shapes and seeded events, not a proof. Large simulated events are judged for totality only.",
     "§4 C09")
 
+CHECKS["C13"] = ("model_checking",
+    "Ring.tla models the wire ring, the code-shaped block finder (linear scan + seam merge) and the banded coupling; TLC checks for every occupancy of a 12- (16-) wire ring that blocks are the maximal ring runs and that blocks and coupling are equivariant under rotation by one pad column - which fails exactly for the full ring (finding F4, asserted in the model and listed as known). On the implementation, simulated tracks, random hits, blocks at the 255/0 seam and the full ring are rebuilt through try_from_banks for rotations by k pad columns and for the pad-row mirror; Trace_Symmetry requires the rotated avalanche multiset to be the base one with wire + 8k and every other field bit-identical, and the mirrored one to have z negated within 1e-9 m. A second known finding (F8: pad-amplitude ties are broken by scan order) is matched by an input-side classification.",
+    "Trusted: Ring.tla as design argument; the synthesiser is a driver only; simulation calibration is uniform. Known findings F4 and F8 are suppressed only by their signatures.",
+    "§4 C13")
+
 NOT_APPLICABLE = {
     "C12": "population statistics of a floating-point pipeline against a physical forward model; TLA+/TLC has no reals or floats, so the spec cannot be the oracle",
     "C16": "decisive clause is a floating-point global minimisation over a continuum; only a numeric brute force could referee it, which is a different technique",
